@@ -397,12 +397,15 @@ PATTERNS = [
     ('qslice', 'expr', 'MCall(args=[MQSTAR(i=...), M(z=...)])', {'i': 'ES', 'z': 'E'}),
     ('qslice', 'expr', 'MList(elts=[M(a=...), MQSTAR(m=...), M(z=...)], ctx=Load)', {'a': 'E', 'm': 'ES', 'z': 'E'}),
     ('qslice', 'expr', 'MList(elts=[MQPLUS(h=...), M(z=...)], ctx=Load)', {'h': 'ES', 'z': 'E'}),
-    ('qslice', 'expr', 'MCall(func=M(f=MName), args=[..., MQSTAR(m=...), ...])', {'f': 'E', 'm': 'ES'}),
+    ('qslice', 'expr', 'MCall(func=M(f=MName), args=[..., MQSTAR(m=...), ...])', {'f': 'N', 'm': 'ES'}),
+    ('multi', 'expr', 'MCall(func=M(f=MName), args=[M(x=MName), MQSTAR(r=...)])', {'f': 'N', 'x': 'N', 'r': 'ES'}),
+    ('multi', 'expr', 'MBinOp(left=M(l=MName), right=M(r=...))', {'l': 'N', 'r': 'E'}),
+    ('multi', 'stmt', 'MExpr(value=MCall(func=M(f=MName), args=M(a=...)))', {'f': 'N', 'a': 'ES'}),
     ('qmulti', 'expr', 'MList(elts=[MQPLUS(g=[M(p=...), M(q=...)]), MQSTAR(rest=...)], ctx=Load)',
      {'g': 'ES', 'rest': 'ES'}),
     ('qmulti', 'expr', 'MCall(args=[M(x=...), MQSTAR(g=[MName, ...]), MQSTAR(rest=...)])',
      {'x': 'E', 'g': 'ES', 'rest': 'ES'}),
-    ('multi', 'expr', 'M(w=MCall(func=M(f=MName)))', {'w': 'E', 'f': 'E'}),
+    ('multi', 'expr', 'M(w=MCall(func=M(f=MName)))', {'w': 'E', 'f': 'N'}),
     ('multi', 'expr', 'MCall(func=M(f=...), args=[M(x=MCall(args=M(ia=...))), MQSTAR(r=...)])',
      {'f': 'E', 'x': 'E', 'ia': 'ES', 'r': 'ES'}),
     ('multi', 'expr', 'MBinOp(left=M(l=MBinOp(left=M(ll=...), right=M(lr=...))), right=M(r=...))',
@@ -479,6 +482,23 @@ TEMPLATES = [
     ('stmt-whole', 'stmt', 'if 1:\n    {W}'),
     ('missing-list', 'stmt', 'if 1:\n    {Z}\n    post()'),
     ('const', 'stmt', 'done = 1'),
+    # overrides against the default slice/one decision (documented: __FSO_ puts a slice as one element, __FSS_ splices a node)
+    ('override', 'expr', 'g(0, {oES}, 1)'),
+    ('override', 'expr', '[{oES}, {E}]'),
+    ('override', 'expr', 'g({sEq}, 0)'),
+    ('override', 'expr', '[{sEq}, 0]'),
+    ('override', 'expr', '({sEq}, {oES})'),
+    ('override', 'expr', '{ES1} + 1'),
+    ('override', 'expr', 'w[{ES1}]'),
+    ('override', 'stmt', 'r = g({sEq}, {oES})'),
+    # identifier slots filled from a captured Name
+    ('ident', 'expr', 'o.{iN}'),
+    ('ident', 'expr', 'g({E}, {iN}=1)'),
+    ('ident', 'expr', 'lambda {iN}: {E}'),
+    ('ident', 'expr', '{E}.{iN}({iN}={E2})'),
+    ('ident', 'stmt', 'def {iN}(p, {iN}=1):\n    return {E}'),
+    ('ident', 'stmt', 'import m as {iN}\nglobal {iN}'),
+    ('ident', 'stmt', 'class {iN}:\n    v = {E}'),
     ('call-arglike', 'expr', 'g({A}, {AS})'),
     ('call-arglike', 'expr', 'o.m(0, {AS}, z=1)'),
     ('call-arglike', 'expr', 'g({AS})'),
@@ -525,15 +545,21 @@ def make_template(rng, fmt, tagkinds, cat):
         return slot(t, letter)
 
     out = fmt
+    for ph, kinds, letter in (('{oES}', ['ES'], 'O'), ('{sEq}', ['E', 'N'], 'S'), ('{ES1}', ['ES'], 'T'), ('{iN}', ['N'], 'T')):
+        while ph in out:
+            c = [t for k in kinds for t in by.get(k, []) if t or (cat == 'expr' and ph == '{sEq}')]
+            if not c:
+                return None
+            out = out.replace(ph, slot(rng.choice(c), letter), 1)
     for ph in ('{sE2}', '{sE}'):
         while ph in out:
-            c = [t for t in by.get('E', []) if t or cat == 'expr']     # the whole match only if it is an expression
+            c = [t for t in by.get('E', []) + by.get('N', []) if t or cat == 'expr']     # the whole match only if it is an expression
             if not c:
                 return None
             out = out.replace(ph, slot(rng.choice(c)), 1)
     out = out.replace('{sW}', slot('')).replace('{sZ}', slot('zz'))
-    for ph, kinds in (('{AS}', ['AS', 'ES']), ('{A}', ['A', 'E']), ('{E2}', ['E']), ('{E}', ['E']), ('{ES}', ['ES']), ('{SX}', ['S', 'SS']), ('{SS}', ['SS']),
-                      ('{S}', ['S']), ('{ANY2}', ['S', 'SS', 'E']), ('{ANY}', ['S', 'SS', 'E'])):
+    for ph, kinds in (('{AS}', ['AS', 'ES']), ('{A}', ['A', 'E', 'N']), ('{E2}', ['E', 'N']), ('{E}', ['E', 'N']), ('{ES}', ['ES']), ('{SX}', ['S', 'SS']), ('{SS}', ['SS']),
+                      ('{S}', ['S']), ('{ANY2}', ['S', 'SS', 'E', 'N']), ('{ANY}', ['S', 'SS', 'E', 'N'])):
         while ph in out:
             if cat == 'expr' and ph in ('{E}', '{E2}') and not tagkinds and ph == '{E2}':
                 s = slot('')
@@ -690,7 +716,7 @@ def gen_jobs(rng, n, string_slots=True):
         if not pats:
             continue
         shape, cat, spec, tagkinds = rng.choice(pats)
-        cands = [t for t in TEMPLATES if t[1] == cat and (string_slots or not t[0].startswith('str-'))]
+        cands = [t for t in TEMPLATES if t[1] == cat and (string_slots or not (t[0].startswith('str-') or t[0] in ('override', 'ident')))]
         placement, _, fmt = rng.choice(cands)
         tm = make_template(rng, fmt, tagkinds, cat)
         if tm is None:
@@ -728,6 +754,8 @@ DIRECTED = [
     _d(_IFS, 'view', 'stmt', _IFPAT, 'module', 'pre(__FST_t)\n__FST_b'),
     _d(_IFS, 'view', 'stmt', _IFPAT, 'module', 'pre(__FST_t)\n__FST_b', on='leave'),
     _d(_IFS, 'view', 'stmt', _IFPAT, 'module', 'pre(__FST_t)\n__FST_b', nested=True),        # C18-F1 witness
+    _d('v = [[b], a]\n', 'node', 'expr', 'MList(ctx=Load)', 'override', '(__FSS_, 0)', nested=True),     # C18-F5 witness
+    _d('v = [[b], a]\n', 'node', 'expr', 'MList(ctx=Load)', 'override', 'g(__FSS_, 0)', nested=True),
     _d(_IFS, 'view', 'stmt', _IFPAT, 'root', '__FST_b', loop=True),
     _d('x = a\n', 'node', 'expr', 'MName(ctx=Load)', 'str-whole', 'log(__FST_, "__FST_")'),
     _d('print(rec.name, idx)\nlog(rec.name, idx)\nprint(total, rec.items[idx])  # trailing\n', 'tags', 'expr',
@@ -920,5 +948,46 @@ def gen_ctx_jobs(rng, n):
         st = {'nested': rng.random() < 0.3, 'on': 'leave' if rng.random() < 0.25 else 'enter',
               'count': rng.choice([0, 0, 0, 2]), 'loop': False, 'ctx': rng.random() < 0.7}
         jobs.append({'src': ctx_program(rng), 'shape': shape, 'cat': cat, 'pat': spec, 'placement': 'ctx-' + placement,
+                     'tmpl': tm, 'set': st})
+    return jobs
+
+
+# ---------------------------------------------------------------------------------------------------------------------
+# overrides: captured nodes that ARE sequences (so that a forced slice `__FSS_` has elements to splice) and slices put as
+# one element (`__FSO_`), into virtual (call arguments, class bases) and ordinary (list / tuple elements) list slots
+
+def override_program(rng):
+    at = lambda: rng.choice(['a', 'b', 'c', '1', 'g(x)'])
+    seq = lambda: rng.choice(['[{}]', '({},)', '{{{}}}', '[{}, {}]', '({}, {})', '[{}, {}, {}]', '{}']).format(at(), at(), at())
+    lines = []
+    for i in range(rng.randint(1, 3)):
+        call = f'{rng.choice(["f", "h"])}({seq()}, {", ".join(seq() for _ in range(rng.randint(0, 2)))})'.replace(', )', ')')
+        lines.append(rng.choice([call, f'v{i} = {call}', f'w = [{call}, {seq()}]']))
+    return '\n'.join(lines)
+
+
+OVERRIDE_PATTERNS = [
+    ('qslice', 'expr', 'MCall(args=[M(x=...), MQSTAR(r=...)])', {'x': 'E', 'r': 'ES'}),
+    ('multi', 'expr', 'MCall(func=M(f=MName), args=[M(x=...), MQSTAR(r=...)])', {'f': 'N', 'x': 'E', 'r': 'ES'}),
+    ('node', 'expr', 'MList(ctx=Load)', {}), ('node', 'expr', 'MTuple(ctx=Load)', {}),
+    ('multi', 'expr', 'M(w=MList(ctx=Load))', {'w': 'E'}),
+    ('view', 'expr', 'MList(elts=M(e=...), ctx=Load)', {'e': 'ES'}),
+]
+OVERRIDE_TEMPLATES = ['g({sEq}, 0)', 'g(0, {sEq})', '[{sEq}, 0]', '(0, {sEq})', 'g(0, {oES}, 1)', '[{oES}, 0]', '({sEq}, {oES})',
+                      'o.m({sEq}, k=1)', '{ES1} + 1', 'w[{ES1}]', 'g({E}, {sEq})', '{sEq} + 1']
+
+
+def gen_override_jobs(rng, n):
+    jobs = []
+    tries = 0
+    while len(jobs) < n and tries < n * 20:
+        tries += 1
+        shape, cat, spec, tagkinds = rng.choice(OVERRIDE_PATTERNS)
+        tm = make_template(rng, rng.choice(OVERRIDE_TEMPLATES), tagkinds, cat)
+        if tm is None:
+            continue
+        st = {'nested': rng.random() < 0.3, 'on': 'leave' if rng.random() < 0.2 else 'enter', 'count': rng.choice([0, 0, 1]),
+              'loop': False}
+        jobs.append({'src': override_program(rng), 'shape': shape, 'cat': cat, 'pat': spec, 'placement': 'override',
                      'tmpl': tm, 'set': st})
     return jobs
